@@ -543,3 +543,55 @@ def nonbool_criteria(rng, tie_free=False):
     if not base:
         base = ["seqid", "overlap_end_inclusive"]
     return nonbool(rng, base)
+
+
+# -- seqids that literally contain a comma, next to seqids equal to one of their parts --------------------------------------
+COMMA_SEQIDS = [("ctg,7", ["7", "ctg"]), ("chr1,chr2", ["chr1", "chr2"]), ("a,b", ["a", "b"]), ("sc,1,x", ["sc", "1", "x", "sc,1", "1,x"]),
+                ("contig_12,len=4003", ["contig_12", "len=4003"]), ("b,a", ["a", "b"]), ("7,ctg", ["7", "ctg"])]
+
+
+def comma_feats(rng):
+    """Start-ordered rows in 1..3 clusters: the first feature of a cluster lies on a seqid that holds a comma ('ctg,7'), the
+    following ones overlap it (75%; else touch it or leave a gap) and lie on a seqid equal to one of its comma-separated parts
+    ('7', 'ctg'; 70%), on the comma seqid itself (at most one more per cluster), on another comma seqid built from the same
+    parts ('7,ctg') or on an unrelated one; strand and type are shared inside a cluster in 75% of the clusters."""
+    out = []
+    pos = rng.choice([1, 1, 100, 131000, 2 ** 20 - 40])
+    for _ in range(rng.choice([1, 1, 2, 3])):
+        name, parts = rng.choice(COMMA_SEQIDS)
+        strand, ftype = rng.choice(STRANDS), rng.choice(TYPES)
+        mixed = rng.random() < 0.25
+        a = pos + rng.randrange(0, 6)
+        b = a + rng.randrange(8, 40)
+        out.append([name, strand, ftype, a, b])
+        end, own, x = b, 0, a
+        for _k in range(rng.randrange(1, 6)):
+            r = rng.random()
+            if r < 0.75:
+                x = rng.randrange(x, end + 1)            # begins inside the cluster so far
+            elif r < 0.9:
+                x = end + 1                              # on the base after it
+            else:
+                x = end + rng.randrange(2, 6)            # detached
+            y = x + rng.choice([0, 1, 3, 8, 13, 30])
+            r = rng.random()
+            if r < 0.7:
+                seqid = rng.choice(parts)
+            elif r < 0.82 and own == 0:
+                seqid, own = name, 1
+            elif r < 0.92:
+                seqid = ",".join(reversed(name.split(",")))
+            else:
+                seqid = "zz"
+            lab = [seqid, strand, ftype]
+            if mixed and rng.random() < 0.4:
+                if rng.random() < 0.6:
+                    lab[1] = rng.choice(STRANDS)
+                else:
+                    lab[2] = rng.choice(TYPES)
+            out.append(lab + [x, y])
+            end = max(end, y)
+        pos = end + rng.choice([-3, 0, 1, 2, 10])
+        pos = max(pos, out[-1][3])
+    # start order, stable (the comma-named head of a cluster stays before the features that begin on the same base)
+    return sorted(out, key=lambda r: r[3])
